@@ -2,8 +2,10 @@
 # runs every check (tier $1, default quick) on the current tree and prints one line per property
 TIER="${1:-quick}"; cd "$(dirname "$0")/.."
 R="${VF_REPO:-/repo}"; git -C "$R" diff --quiet || echo "WARNING: $R working tree is dirty"
+FAIL=0
 for i in $(seq -w 1 20); do
   s=$(date +%s); out=$(./check C$i --tier $TIER 2>&1); rc=$?; e=$(date +%s)
   echo "C$i rc=$rc $((e-s))s  $(echo "$out" | grep "^C$i $TIER" | tail -1)"
-  [ $rc -ne 0 ] && echo "$out" | grep "UNDECIDED\|VIOLATION" | head -5
+  if [ $rc -ne 0 ]; then FAIL=1; echo "$out" | grep "UNDECIDED\|VIOLATION" | head -5; fi
 done
+exit $FAIL
